@@ -102,7 +102,8 @@ type Sim struct {
 	Fine      bool
 	SiteSalt  uint64
 	SiteMod   uint64
-	StallMod  uint64 // fine-grained mode: one in StallMod yield parks stalls the goroutine (0: never)
+	StallMod  uint64 // one in StallMod parks stalls the goroutine for a while (0: never)
+	SlowMod   uint64 // > 0: one in SlowMod logical actors is slow in this run: it only runs when nobody else can
 	schedGoid int64
 	goConn    map[int64]int
 }
@@ -328,6 +329,26 @@ func (s *Sim) Inline(f func()) {
 	synctest.Wait()
 }
 
+// ReleaseYields lets every goroutine go on that is parked at a yield point or an automatic lock
+// probe. It is called inside Inline before the transport is stopped: Stop waits for goroutines
+// (the accept loop) which may be parked there.
+func (s *Sim) ReleaseYields() {
+	s.mu.Lock()
+	var keep, rel []*Parked
+	for _, p := range s.parked {
+		if p.Kind == "pt" || p.Kind == "autolock" {
+			rel = append(rel, p)
+		} else {
+			keep = append(keep, p)
+		}
+	}
+	s.parked = keep
+	s.mu.Unlock()
+	for _, p := range rel {
+		close(p.ch)
+	}
+}
+
 // Count bumps a fault / probe counter.
 func (s *Sim) Count(name string) {
 	s.mu.Lock()
@@ -480,10 +501,30 @@ func (s *Sim) Park(kind, actor string, conn int, info string, enabled func() boo
 			s.Stats["fault.stalled_goroutine"]++
 		}
 	}
+	if kind != "autolock" && p.StallUntil == 0 && s.slowActor(actor) {
+		p.StallUntil = stallForever
+		p.Info += " slow"
+		s.Stats["fault.slow_actor_park"]++
+	}
 	s.parked = append(s.parked, p)
 	s.mu.Unlock()
 	<-p.ch
 }
+
+// slowActor reports whether the logical actor is the slow one of this run (fault kind "slow
+// node": it is scheduled only when nothing else can run).
+func (s *Sim) slowActor(actor string) bool {
+	if s.SlowMod == 0 || actor == "" {
+		return false
+	}
+	f := fnv.New64a()
+	f.Write([]byte(actor))
+	h := (f.Sum64() ^ s.SiteSalt*0x9E3779B97F4A7C15) * 0xD6E8FEB86659FD93
+	h ^= h >> 31
+	return h%s.SlowMod == 0
+}
+
+const stallForever = int(^uint(0) >> 2)
 
 // parkStalled parks like Park; the scheduler does not release the goroutine before step until,
 // unless nothing else can run.
